@@ -55,7 +55,7 @@ func TestVF_C14_V1RoundTrip(t *testing.T) {
 
 func TestVF_C14_V1Flip(t *testing.T) {
 	st := vfhelp.NewStats("TestVF_C14_V1Flip",
-		"as TestVF_C14_FileFlip on V1 files (payload covered by one CRC verified when the reader is closed); non-trivial = never (V1 has no blocks), distinctness is still counted")
+		"as TestVF_C14_FileFlip on V1 files (payload covered by one CRC verified when the reader is closed); non-trivial = a flip inside a payload of at least 64 KiB")
 	defer st.Flush()
 	rapid.Check(t, snapio.FileFlip(st, v1Flavor(), 12))
 }
@@ -80,7 +80,7 @@ func TestVF_C14_V1HeaderExhaustive(t *testing.T) {
 
 func TestVF_C14_V1Stream(t *testing.T) {
 	st := vfhelp.NewStats("TestVF_C14_V1Stream",
-		"V1 file split at a generated chunk size and fed to rsm.SnapshotValidator (v1 validator: whole payload CRC against the header's PayloadChecksum), same perturbations as TestVF_C14_Stream")
+		"V1 file split at a generated chunk size and fed to rsm.SnapshotValidator (v1 validator: whole payload CRC against the header's PayloadChecksum), same perturbations as TestVF_C14_Stream; non-trivial = at least 3 pieces and a perturbation of the payload or of the piece list")
 	defer st.Flush()
 	rapid.Check(t, snapio.Stream(st, v1Flavor(), 12))
 }
